@@ -9,19 +9,38 @@
     from one process.
 
    Model/Boot.v: boot_step (the code of rig/machine_control/boot.py as it is now), boot_orig_step (the code as
-   found, before the fix that copies sv_overrides), over the constants, formats, fixed fields, presets, default
+   found, before the fix that copies sv_overrides), boot_fixed_step (with the copy), over the constants, formats, fixed fields, presets, default
    dictionary and parsed `sv` struct regenerated from /repo into Generated/GenBoot.v.
    [boot_after earlier c] is the outcome of the call c made after the calls [earlier] in the same process
    (library state = the dictionary object that is the default of sv_overrides); [boot_alone c] the outcome in
    a fresh process.  Spec/Boot.v states the wire format, the receiver's reassembly, this call's option values
    and the domain with numbers written out.  This file holds only statements; proofs are in Proofs/Boot*.v.
 
+   Read with care (said openly):
+   * [boot_step] is boot_fixed_step or boot_orig_step according to an ast fact regenerated from boot.py on every
+     run (does boot() copy sv_overrides before updating it?); the history theorems below hold because the CURRENT
+     source copies (C20_history_clause_tied_to_source) -- with the copy removed they no longer build.
+   * The model's process state is the default dictionary of sv_overrides (and, in BootCtrl, the controllers).
+     The struct file and the image are INPUTS of every call: a cache of parsed structs or of file contents shared
+     between calls cannot be expressed; that boot() reads both files afresh and that a controller's default
+     structs are a fresh parse is a fail-closed source-shape obligation (GenBootCtrl) plus the harness
+     (files rewritten in place, several controllers), not a theorem.
+   * "the options of this call": the three fields boot() always writes (unix_time, boot_sig := the clock,
+     root_chip := 1) win over an option of the same name (option_value; C20_fixed_fields_win).
+   * Domain (call_in_domain): word-sized images of 512..32767 bytes.  Shorter images are accepted by the code
+     but are not "the image except the configuration area": 385..511 bytes lose their tail (whatever the
+     alignment), below 384 bytes the area is appended (C20_short_images_outside_domain shows both).
+     C20_boot_reassembles still states exactly what is sent for them (expected_image clamps like the code).
+   * C20_boot_bytes says nothing about a field straddling byte 128 of sv (none in the bundled struct).
+   * assert statements are modelled as errors: running Python with -O is outside the model.
+
    Hypotheses that are representation invariants, not restrictions: bytes_ok (a bytes object holds 0..255),
    dict_ok / opt_dict_ok (a dict has distinct keys). *)
 From Coq Require Import ZArith List Bool String.
 Require Import Rig.Generated.GenBoot Rig.Generated.GenBootImage Rig.Model.Base Rig.Model.Boot Rig.Spec.Boot.
 Require Import Rig.Generated.GenBootCtrl Rig.Model.BootCtrl Rig.Spec.BootCtrl.
-Require Import Rig.Proofs.BootBytes Rig.Proofs.BootStruct Rig.Proofs.Boot Rig.Proofs.BootCtrl.
+Require Import Rig.Generated.GenSharedState.
+Require Import Rig.Proofs.BootBytes Rig.Proofs.BootStruct Rig.Proofs.Boot Rig.Proofs.BootCtrl Rig.Proofs.BootAudit.
 Import ListNotations.
 Open Scope Z_scope.
 
@@ -93,6 +112,20 @@ Proof. exact boot_after_describes. Qed.
 Theorem C20_boot_history_independent :
   forall earlier c, boot_after earlier c = boot_alone c.
 Proof. exact boot_history_independent. Qed.
+
+(* The tie of this clause to the source as it is now: C17's inventory of mutable carriers (regenerated from
+   /repo) lists the default of boot()'s sv_overrides with 0 write sites and 0 escapes; the ast fact of GenBoot says
+   boot() updates a copy; hence the model of the current code is boot_fixed_step and starts from the empty
+   dictionary.  Reverting the fix changes the first two facts and this theorem (and every theorem of this file,
+   through boot_step_is_fixed) stops building. *)
+Theorem C20_history_clause_tied_to_source :
+  In ("rig/machine_control/boot.py", "default", "boot.sv_overrides", 0, 0)%string carriers /\
+  boot_copies_overrides = true /\ boot_step = boot_fixed_step /\ initial_shared = [].
+Proof. exact shared_default_untouched_in_source. Qed.
+
+Theorem C20_model_follows_source :
+  forall st c, boot_step st c = if boot_copies_overrides then boot_fixed_step st c else boot_orig_step st c.
+Proof. exact step_follows_source. Qed.
 
 (* ... because no boot changes the shared default dictionary or the dictionary it was given. *)
 Theorem C20_boot_dictionaries_untouched :
@@ -229,6 +262,30 @@ Proof. exact misfit_example. Qed.
 Example C20_two_controllers :
   map (fun ct => nth 6 (map f_default (s_fields (k_sv ct))) (-1)) (p_ctrls (state_after two_ctrl_ops)) = [3; 0].
 Proof. exact two_ctrl_example. Qed.
+
+(* Precedence of the fixed fields: boot(h, unix_time=5, sv_overrides={"root_chip": 0}) at time 1000 sends
+   unix_time = 1000 and root_chip = 1, and returns structs saying so. *)
+Example C20_fixed_fields_win :
+  firstn 4 (skipn (384 + 28) (reassemble (o_datagrams (boot_alone clock_option_call)))) = [232; 3; 0; 0] /\
+  nth (384 + 64) (reassemble (o_datagrams (boot_alone clock_option_call))) 9 = 1 /\
+  option_value clock_option_call "unix_time" 0 = 1000 /\ option_value clock_option_call "root_chip" 0 = 1 /\
+  (exists fs, o_result (boot_alone clock_option_call) = Ok fs /\
+              map f_default (filter (fun f => String.eqb (f_name f) "unix_time" || String.eqb (f_name f) "root_chip") fs)
+              = [1000; 1]).
+Proof. exact fixed_fields_win. Qed.
+
+(* Outside the domain: a 402-byte image (not even word-sized) boots, 512 bytes are sent and its bytes 384..401 are
+   lost; a 100-byte image boots, 228 bytes are sent and the configuration area follows the image. *)
+Example C20_short_images_outside_domain :
+  (exists fs, o_result (boot_alone (short_call 402)) = Ok fs) /\
+  len (reassemble (o_datagrams (boot_alone (short_call 402)))) = 512 /\
+  firstn 384 (reassemble (o_datagrams (boot_alone (short_call 402)))) = repeat 7 384%nat /\
+  nth 390 (reassemble (o_datagrams (boot_alone (short_call 402)))) 0 <> 7 /\
+  (exists fs, o_result (boot_alone (short_call 100)) = Ok fs) /\
+  len (reassemble (o_datagrams (boot_alone (short_call 100)))) = 228 /\
+  firstn 100 (reassemble (o_datagrams (boot_alone (short_call 100)))) = repeat 7 100%nat /\
+  nth (100 + 12) (reassemble (o_datagrams (boot_alone (short_call 100)))) 0 = 4.
+Proof. exact short_images. Qed.
 
 (* Non-vacuity and the live data. *)
 Example C20_domain_satisfiable : call_in_domain example_call.
